@@ -135,7 +135,7 @@ fn build_add(lhs: &AstNode, rhs: &AstNode) -> Result<Evaluator> {
     let rhv = rhe(scope) as Value;
     match lhv {
       Value::Number(lh) => match rhv {
-        Value::Number(rh) => Value::Number(lh + rh),
+        Value::Number(rh) => bifs::core::finite_number(lh + rh),
         value @ Value::Null(_) => value,
         _ => value_null!("addition err 1"),
       },
@@ -435,7 +435,7 @@ fn build_div(lhs: &AstNode, rhs: &AstNode) -> Result<Evaluator> {
           if rh.abs() == FeelNumber::zero() {
             value_null!("[division] division by zero")
           } else {
-            Value::Number(lh / rh)
+            bifs::core::finite_number(lh / rh)
           }
         }
         _ => value_null!("[division] incompatible types: {} / {}", lhv, rhv),
@@ -1141,7 +1141,7 @@ fn build_mul(lhs: &AstNode, rhs: &AstNode) -> Result<Evaluator> {
     let rhv = rhe(scope) as Value;
     match lhv {
       Value::Number(lh) => match rhv {
-        Value::Number(rh) => Value::Number(lh * rh),
+        Value::Number(rh) => bifs::core::finite_number(lh * rh),
         _ => value_null!("[multiplication] incompatible types: {} * {}", lhv, rhv),
       },
       value @ Value::Null(_) => value,
@@ -1557,7 +1557,7 @@ fn build_sub(lhs: &AstNode, rhs: &AstNode) -> Result<Evaluator> {
     match lhv {
       Value::Number(ref lh) => {
         if let Value::Number(ref rh) = rhv {
-          return Value::Number(*lh - *rh);
+          return bifs::core::finite_number(*lh - *rh);
         }
       }
       Value::DateTime(ref lh) => {
